@@ -929,10 +929,10 @@ func planC17(tier string) *Plan {
 	p := &Plan{Property: "C17", Tier: tier, Patterns: []string{".", "./internal/simulation"}, PanicsCount: true}
 	bounds := []int{2, 3, 4, 5}
 	if tier == "thorough" {
-		bounds = []int{2, 3, 4, 5, 6, 7, 8}
+		bounds = []int{6, 2, 3, 4, 5} // 6 iterations: 5589 paths, about 11 min; 7 did not finish in 10 min
 	}
 	for _, b := range bounds {
-		p.Jobs = append(p.Jobs, &Job{Pkg: dbftPkg + "/internal/simulation", Entry: "H_sim", Solver: "z3-new", Want: []string{"C17"}, BudgetS: 600,
+		p.Jobs = append(p.Jobs, &Job{Pkg: dbftPkg + "/internal/simulation", Entry: "H_sim", Solver: "z3-new", Want: []string{"C17"}, BudgetS: 2400,
 			Params: map[string]int{"selbound": b}, Redirect: simRedirect})
 	}
 	p.MustCover = []string{"C17.event", "C17.block", "C17.loop.exit"}
@@ -943,7 +943,7 @@ func planC17(tier string) *Plan {
 		"zap logging is stubbed",
 	}, commonAssumptions...)
 	p.Bounds = map[string]string{
-		"iterations": fmt.Sprintf("the real Run loop for up to %d iterations (every interleaving of timer expiries and messages, every choice of which events complete a round), then cancellation", bounds[len(bounds)-1]),
+		"iterations": fmt.Sprintf("the real Run loop for up to %d iterations (every interleaving of timer expiries and messages, every choice of which events complete a round or re-arm the timer), then cancellation", map[bool]int{true: 6, false: 5}[tier == "thorough"]),
 		"nodes":      "ONE node's event loop with its real callbacks (ProcessBlock, CurrentHeight, CurrentBlockHash); the ledger height at start is symbolic",
 	}
 	p.Outside = []string{"goroutine schedules of the multi-node program, wall-clock pacing (\"roughly the configured block interval\"), agreement between nodes (C01) and the real payload/crypto code of internal/consensus (gob, SHA-256, ECDSA: not encodable, see C19) are NOT decided", "a violation is replayed by running the real simulation binary (4 validators, 13 s) and observing that no height beyond 1 is accepted"}
